@@ -140,15 +140,22 @@ def run_pipeline(load, transpile) -> tuple[str, BaseException | None, str]:
 		return 'crash', e, stage
 
 
-def render_ok(e: BaseException) -> str | None:
+def render_ok(e: BaseException, cwd: str | None = None) -> str | None:
+	"""str(ErrorRender(e)) must return. The source quotation is only built when '<module path>.py' exists relative to the working
+	directory, so errors of on-disk modules are rendered from inside their project directory."""
 	from rogw.tranp.view.error_render import ErrorRender
+	old = os.getcwd()
 	try:
+		if cwd:
+			os.chdir(cwd)
 		text = str(ErrorRender(e))
 		return None if isinstance(text, str) else 'render returned a non-string'
 	except Timeout:
 		raise
 	except Exception as ex:
 		return bucket_of(ex)
+	finally:
+		os.chdir(old)
 
 
 def judge(scratch: str, source: str) -> tuple[list[tuple[str, str]], dict]:
@@ -184,7 +191,7 @@ def judge(scratch: str, source: str) -> tuple[list[tuple[str, str]], dict]:
 				if outcome == 'crash':
 					fails.append((f'{where}:{stage}:crash:{bucket_of(exc)}', f'{type(exc).__name__}: {str(exc)[:300]}'))
 				elif exc is not None:
-					bad = render_ok(exc)
+					bad = render_ok(exc, a['proj'] if where == 'disk' else None)
 					if bad:
 						fails.append((f'{where}:render:crash:{bad}', f'ErrorRender failed for {type(exc).__name__}'))
 			lark_rejects = any(o[0] == 'error:Syntax' or (o[0] == 'crash' and o[2] == 'load' and type(o[1]).__module__.startswith('lark')) for o in outcomes.values())
